@@ -1,5 +1,6 @@
 import Fdo.Gen.Kex
 import Fdo.Kex.Spec
+import Fdo.Facts
 /-
 C09 — every supported crypto configuration onboards; forbidden ones are refused.
 The quantifier is a finite product, decided by executing the whole product (thorough tier of the
@@ -35,5 +36,15 @@ theorem available_ciphers :
 theorem registered_suites :
     Fdo.Gen.Kex.registeredSuites = ["ECDH256", "ECDH384", "DHKEXid14", "DHKEXid15", "ASYMKEX2048", "ASYMKEX3072"] := by
   decide
+
+/-- **Both sides consult the same validity table before going on** (regenerated call-order facts): the owner's
+`proveOVHdr` checks `Suite.Valid` and cipher availability before it creates and stores the key-exchange session
+and signs its answer; the device's `verifyOwner` checks them after ProveOVHdr and before it fetches and verifies
+the voucher — so a combination the table forbids is refused by whichever side sees it first, never replaced. -/
+theorem code_facts :
+    Fdo.Facts.allBefore "TO2Server.proveOVHdr" ["Valid", "Available"] "Parameter" = true ∧
+    Fdo.Facts.allBefore "TO2Server.proveOVHdr" ["Valid", "Available"] "SetXSession" = true ∧
+    Fdo.Facts.allBefore "TO2Server.proveOVHdr" ["Valid", "Available"] "Sign" = true ∧
+    Fdo.Facts.allBefore "verifyOwner" ["sendHelloDevice", "Valid", "Available"] "verifyVoucher" = true := by decide +kernel
 
 end Fdo.Props.C09
